@@ -75,6 +75,11 @@ CHECKS = {
    technique="differential property-based testing (proptest): generated rebase/cherry-pick scenarios executed with the shortcut enabled and with it forced off by the verification hook; notes/blame compared, content-addressed model as arbiter",
    text="Scenarios biased toward the shortcut's precondition (upstream changes confined to files no AI commit touches, plus variants where it fails for some pair, counts differ, a commit lacks a note) run twice with pinned dates: normally and with GIT_AI_VERIF_NO_FAST_PATH=1. For every rewritten commit the attestations restricted to the lines it adds, the prompt records of referenced sessions and the base must agree; blame at every tip must agree. Whether the shortcut ran is read from its debug log line.",
    note="Uses the guarded hook (env switch) in rebase_authorship.rs. Lines with more than one admissible author (white space re-touched across commits, conflict resolutions, filler) are excluded. A difference in which the copied note agrees with the model and the full algorithm does not is finding F37; differences on intermediate commits are finding F5."),
+ "C12": dict(
+   level="exploration", design="DESIGN.md §2 C12",
+   technique="differential property-based testing (proptest): the same generated history under the baseline environment and under a generated subset of text-affecting git settings / invocation contexts; notes, blame and stats compared per commit",
+   text="A generated history (plain and unusual file names, new files and directories) is executed twice with pinned dates: in the baseline sandbox, and under 1-8 settings drawn from a 66-entry catalogue of configuration values that change only what git prints (global or local scope), environment forms (GIT_EXTERNAL_DIFF, GIT_DIFF_OPTS, GIT_PAGER) and an invocation context (root, sub-directory, -C <abs>, chained -C). Attestation sets per commit, `blame --json` per file and tip, and `stats --json` per commit must equal the baseline's.",
+   note="Settings that legitimately change history or blame are excluded by construction. Linked worktrees are not generated. Twins whose git state diverges are counted, not judged."),
 }
 
 NOT_YET = "check not built yet (work in progress; see DESIGN.md section 2 for the plan)"
